@@ -23,6 +23,7 @@
        k = "sgr"   select graphic rendition (colours ...): no effect on the cells
    Any other k is not interpretable: Known(op) is FALSE and the caller must not claim anything.            *)
 EXTENDS Naturals, Sequences
+LOCAL INSTANCE SequencesExt       \* FoldLeft only (evaluated iteratively by TLC: long op sequences need no deep recursion)
 
 Blank == " "
 
@@ -94,9 +95,7 @@ Apply(t, op) ==
     [] op.k = "el"   -> TEL(t, op.n)
     [] OTHER         -> t                                   \* "sgr"
 
-RECURSIVE ApplyFrom(_, _, _)
-ApplyFrom(t, ops, k) == IF k > Len(ops) THEN t ELSE ApplyFrom(Apply(t, ops[k]), ops, k + 1)
-ApplyOps(t, ops) == ApplyFrom(t, ops, 1)
+ApplyOps(t, ops) == FoldLeft(LAMBDA tt, op : Apply(tt, op), t, ops)
 
 AllKnown(ops) == \A k \in 1..Len(ops) : Known(ops[k])
 OnlyPlain(ops) == \A k \in 1..Len(ops) : ops[k].k \in {"text", "lf"}     \* no control code at all
@@ -110,21 +109,18 @@ OpED(n) == [k |-> "ed", n |-> n, s |-> <<>>]
 OpEL(n) == [k |-> "el", n |-> n, s |-> <<>>]
 
 \* ------------------------------------------------------------------ what a viewer sees
-RECURSIVE RTrim(_)
-RTrim(row) == IF row # <<>> /\ row[Len(row)] = Blank THEN RTrim(SubSeq(row, 1, Len(row) - 1)) ELSE row
-RECURSIVE DropEmptyTail(_)
-DropEmptyTail(rows) == IF rows # <<>> /\ rows[Len(rows)] = <<>> THEN DropEmptyTail(SubSeq(rows, 1, Len(rows) - 1))
-                       ELSE rows
+LastIn(S) == CHOOSE k \in S : \A j \in S : j <= k
+RTrim(row) == LET S == {k \in 1..Len(row) : row[k] # Blank} IN IF S = {} THEN <<>> ELSE SubSeq(row, 1, LastIn(S))
+DropEmptyTail(rows) == LET S == {k \in 1..Len(rows) : rows[k] # <<>>} IN
+                       IF S = {} THEN <<>> ELSE SubSeq(rows, 1, LastIn(S))
 \* rows without trailing blanks, without the blank rows at the bottom: two screens look alike iff these are equal
 Visible(rows) == DropEmptyTail([k \in 1..Len(rows) |-> RTrim(rows[k])])
 Screen(t) == Visible(t.rows)
 
 \* a logical line printed from column 0 folds into rows of w cells; the empty line still takes a row
-RECURSIVE Fold(_, _)
-Fold(line, w) == IF Len(line) <= w THEN <<line>> ELSE <<SubSeq(line, 1, w)>> \o Fold(SubSeq(line, w + 1, Len(line)), w)
-RECURSIVE FoldAll(_, _)
-FoldAll(lines, w) == IF lines = <<>> THEN <<>> ELSE Fold(Head(lines), w) \o FoldAll(Tail(lines), w)
 RowsNeeded(len, w) == IF len = 0 THEN 1 ELSE (len + w - 1) \div w
+Fold(line, w) == [k \in 1..RowsNeeded(Len(line), w) |-> SubSeq(line, (k - 1) * w + 1, TMin(k * w, Len(line)))]
+FoldAll(lines, w) == FoldLeft(LAMBDA acc, line : acc \o Fold(line, w), <<>>, lines)
 
 WellFormed(t) == /\ t.r \in 1..Len(t.rows) /\ t.c \in 0..(t.w - 1)
                  /\ \A k \in 1..Len(t.rows) : Len(t.rows[k]) <= t.w
